@@ -56,6 +56,7 @@ type Cell struct {
 	Lock bool
 	// Bookkeeping for C13
 	ChangedSince bool // value-changing store (or forced repaint) since the previous Show
+	Unlocked     bool // was locked and has been unlocked since the previous Show: that Show has to write it
 }
 
 type Screen struct {
@@ -180,6 +181,9 @@ func (s *Screen) LockRegion(x, y, w, h int, lock bool) {
 				c := s.At(i, j)
 				if !lock {
 					c.ChangedSince = true // repainted by the first Show after unlock
+					if c.Lock {
+						c.Unlocked = true
+					}
 				}
 				c.Lock = lock
 			}
